@@ -369,6 +369,9 @@ func (f *Frame) applyContract(instr ssa.Instruction, ct *Contract, c *ssa.CallCo
 			post.vars[rn] = SpecVal{T: rvals[i].T, Typ: sig.Results().At(i).Type(), V: rvals[i]}
 		}
 		for _, en := range ct.Ensures {
+			if strings.Contains(en.Text, "ret(") || strings.Contains(en.Text, "called(") || strings.Contains(en.Text, "argof(") {
+				continue // refers to the callee's internal call history: proved in the callee, not visible to callers
+			}
 			t, err := post.evalBool(en.Expr)
 			if err != nil {
 				e.specError(fmt.Sprintf("contract %s ensures %q: %v", ct.Key, en.Text, err))
